@@ -129,6 +129,11 @@ class SdoServer(SdoBase):
     def block_download(self, data):
         # We currently don't support BLOCK DOWNLOAD
         logger.error("Block download is not supported")
+        command, index, subindex = SDO_STRUCT.unpack_from(data)
+        if command & 0x1 == INITIATE_BLOCK_TRANSFER:
+            # The abort must refer to the object addressed by this request
+            self._index = index
+            self._subindex = subindex
         self.abort(0x05040001)
 
     def init_download(self, request):
